@@ -275,4 +275,23 @@ PROPS = {
             rapid("c03", "TestPropResponses", quick=(1200, 6), thorough=(25000, 14)),
         ],
     },
+    "C18": {
+        "level": "exploration",
+        "rule": "a real imapclient against a scripted server that advertises a drawn capability set (IMAP4rev1 with any subset of IMAP4rev2, "
+                "LITERAL-, LITERAL+, UTF8=ACCEPT; ENABLE UTF8=ACCEPT performed or not) issues 1..6 string-bearing calls (Login, Select, "
+                "Create, Rename, List, Status, Append with sizes 0/1/4095/4096/4097/70000, Search/UIDSearch, Fetch header lists, Store, "
+                "Copy, GetQuota, GetQuotaRoot, SetMetadata, GetMetadata, Sort, Thread, Idle) with strings from every byte class (NUL, CR, "
+                "LF, quotes, 8-bit, invalid UTF-8, lengths 4095..8193); each synchronising literal is answered per a drawn decision "
+                "('+', tagged NO, tagged BAD), optionally after the script verified that no byte followed the header. The client's output, "
+                "framed by the script and tokenised by kit/tok, must satisfy: {n+} only with LITERAL+ or (LITERAL-/IMAP4rev2 and n<=4096); "
+                "8-bit in quoted strings only with IMAP4rev2 or UTF8=ACCEPT enabled; no CR/LF/NUL in quoted strings; exact literal "
+                "counts; no byte after a sync literal header before '+'; after a tagged refusal the next bytes start a new command (or "
+                "the connection ends); no SEARCH CHARSET once UTF8=ACCEPT is enabled. Non-trivial: session whose wire form contains a "
+                "literal, an 8-bit or escaped quoted string, or a refused literal; distinct by hash of (capabilities, decisions, calls).",
+        "assumptions": ["library errors after a refused literal (including the client closing the connection, finding F-C12b) are legitimate outcomes for this property",
+                        "the silence check before '+' uses a 300 microsecond observation window on an in-memory pipe"],
+        "units": [
+            rapid("c18", "TestPropSyntax", quick=(2500, 6), thorough=(40000, 14)),
+        ],
+    },
 }
